@@ -33,6 +33,14 @@ def pack_int(fmt, x):
 
 class CallMixin(object):
 
+    def parse_cached(self, text):
+        """parsed expression texts are kept alive: the unparse cache is keyed by node identity"""
+        if not hasattr(self, '_parsed'):
+            self._parsed = {}
+        if text not in self._parsed:
+            self._parsed[text] = ast.parse(text, mode='eval').body
+        return self._parsed[text]
+
     def ev_Call(self, n, st):
         # keyword / positional argument evaluation
         if any(isinstance(a, ast.Starred) for a in n.args) or any(k.arg is None for k in n.keywords):
@@ -182,6 +190,35 @@ class CallMixin(object):
     def apply_contract(self, callee, recv, args, kw, st, n, qual):
         """modular call: assert requires, havoc result, assume ensures; `raises` clauses fork"""
         line = getattr(n, 'lineno', None)
+        bind = callee.hints.get('bind')
+        if bind and not kw.get('__bound__'):
+            # env-style contract: its ghost parameters are the values of access paths of the
+            # callee's formals; evaluate those paths on the actual arguments in the caller's state
+            formals = callee.hints['formals']
+            actuals = ([recv] if recv is not None else []) + list(args)
+            for k2, v2 in kw.items():
+                actuals.append(v2)
+            sub = st.clone()
+            saved = sub.loc
+            sub.loc = dict(zip(formals, actuals))
+            items = list(bind.items())
+
+            def go(i, s, acc):
+                if i == len(items):
+                    yield s, acc
+                    return
+                nm, text = items[i]
+                node = self.parse_cached(text)
+                for s2, v in self.ev(node, s):
+                    if is_exc(v):
+                        raise Unsupported('binding %s of contract %s raises %s' % (nm, callee.name, v.cls))
+                    yield from go(i + 1, s2, dict(acc, **{nm: v}))
+            for s2, acc in go(0, sub, {}):
+                s2 = s2.clone()
+                s2.loc = saved
+                yield from self.apply_contract(callee, recv, [acc[k] for k in callee.params], {'__bound__': True}, s2, n, qual)
+            return
+        kw = dict((k, v) for k, v in kw.items() if k != '__bound__')
         names = list(callee.params.keys())
         vals = {}
         pos = list(args)
@@ -213,6 +250,17 @@ class CallMixin(object):
             v = ns[nm]
             if isinstance(v, RefV) and v.kind == 'list':
                 ns[nm] = st.heap[(v.id, 'val')]
+        for k, v in self.init_vals.items():
+            if k.startswith('_g_'):
+                ns.setdefault(k, v)
+        unpack = callee.hints.get('unpack')
+        if unpack is not None:
+            ns.update(unpack(vals))
+        if isinstance(recv, RefV) and recv.kind == 'obj':
+            ns['self'] = recv
+            for (rid, f), fv in list(st.heap.items()):
+                if rid == recv.id:
+                    ns['old(self.%s)' % f] = self.deref_for_contract(fv, st)
         pe = PureEval(ns, defs=callee.defs, funcs=self.contract_funcs(st))
         req = pe.boolean(callee.requires)
         self.add_oblig('pre[%s @ line %s]' % (callee.name, line), 'pre', st, req, pe.facts, line=line)
@@ -221,7 +269,7 @@ class CallMixin(object):
         st.pc.append(req)
         # exceptional exits
         rest = st
-        for cls_name, cond in callee.raises.items():
+        for cls_name, cond in (callee.raises.items() if not (callee.refuses or callee.accepts) or callee.hints.get('raises_exact') else []):
             pe2 = PureEval(ns, defs=callee.defs, funcs=self.contract_funcs(st))
             c = pe2.boolean(cond)
             rest2 = None
@@ -234,6 +282,44 @@ class CallMixin(object):
                 return
             rest = rest2
         st = rest
+        if (callee.refuses or callee.accepts) and not callee.hints.get('raises_exact'):
+            # the contract does not characterise the raise condition exactly: it may raise (with one
+            # of the declared classes) unless an `accepts` clause holds, and must raise when a
+            # `refuses` clause holds
+            pe2 = PureEval(ns, defs=callee.defs, funcs=self.contract_funcs(st))
+            raised = fresh('raised_' + callee.name.split('/')[-1], 'Bool')
+            st = st.clone()
+            for _, text in callee.refuses:
+                st.pc.append(z3.Implies(pe2.boolean(text), raised))
+            for _, text in callee.accepts:
+                st.pc.append(z3.Implies(pe2.boolean(text), z3.Not(raised)))
+            st.pc.extend(pe2.facts)
+            nxt = None
+            for s2, t in self.fork(st, raised):
+                if t:
+                    for cls_name in (callee.raises or {'Exception': 'True'}):
+                        yield s2, ExcV(cls_name, 'raised by %s' % callee.name, line)
+                else:
+                    nxt = s2
+            if nxt is None:
+                return
+            st = nxt
+        # frame: havoc exactly what the callee may modify
+        if callee.modifies:
+            st = st.clone()
+            for path in callee.modifies:
+                parts = path.split('.')
+                if parts[0] != 'self' or len(parts) != 2 or not isinstance(recv, RefV):
+                    raise Unsupported('callee modifies clause %r' % path)
+                cur = st.heap[(recv.id, parts[1])]
+                if isinstance(cur, RefV) and cur.kind == 'list':
+                    st.heap[(cur.id, 'val')] = self.havoc_value(self.deref_for_contract(cur, st), parts[1])
+                    if cur.id in self.tracked_refs or recv.id in self.tracked_refs:
+                        st.writes.append((cur.id, 'val', line))
+                else:
+                    st.heap[(recv.id, parts[1])] = self.havoc_value(cur, parts[1])
+                    if recv.id in self.tracked_refs:
+                        st.writes.append((recv.id, parts[1], line))
         # result
         if callee.yields is not None:
             # a generator: the result is an abstract list of its yields
@@ -378,9 +464,12 @@ class CallMixin(object):
     # ---------------------------------------------------------------- builtins
     def bi_len(self, args, kw, st, n):
         for s, a in self.split(st, args[0]):
-            hook = self.len_hook(a, s)
-            if hook is not None:
-                yield s, hook
+            if isinstance(a, RefV) and a.kind == 'obj' and a.cls is not None:
+                c, m = a.cls.find_method('__len__')
+                if m is None:
+                    yield s, ExcV('TypeError', 'object has no len()', getattr(n, 'lineno', None))
+                else:
+                    yield from self.call_repo(None, ('method', a, c, m), [], {}, s, n)
                 continue
             a = self.deref_list(a, s)
             if isinstance(a, SeqV):
@@ -973,10 +1062,12 @@ class CallMixin(object):
         if not isinstance(sl.step, NoneV) and const_of(to_int(sl.step)) != 1:
             raise Unsupported('slice.indices with a step')
         ln = to_int(length)
-        lo = None if isinstance(sl.start, NoneV) else to_int(sl.start)
-        hi = None if isinstance(sl.stop, NoneV) else to_int(sl.stop)
-        b, e = clamp_slice(lo, hi, ln)
-        yield st, TupV([IntV(b), IntV(e), IntV(1)])
+        for s1, a in self.split(st, sl.start):
+            for s2, b in self.split(s1, sl.stop):
+                lo = None if isinstance(a, NoneV) else to_int(a)
+                hi = None if isinstance(b, NoneV) else to_int(b)
+                bb, ee = clamp_slice(lo, hi, ln)
+                yield s2, TupV([IntV(bb), IntV(ee), IntV(1)])
 
 
 class TypeName(object):
